@@ -316,7 +316,8 @@ where
                     0 => { let b = numraw & 1 == 1; (Lay { s: false, w: 1, f: 0 }, Num::u(b as u128), cat(|| W::<F>::from_num(b))) }
                     1 => { let x = I4F4::from_bits(numraw as i8); (I4F4::lay(), x.val(), cat(|| W::<F>::from_num(x))) }
                     2 if c.wr.big => { let x = I16F16::from_bits(numraw as i32); (I16F16::lay(), x.val(), cat(|| W::<F>::from_num(x))) }
-                    3 if c.wr.big => { let x = U0F128::from_bits(numraw | (numraw << 64)); (U0F128::lay(), x.val(), cat(|| W::<F>::from_num(x))) }
+                    3 if c.wr.big && numraw & 2 == 0 => { let x = U0F128::from_bits(numraw | (numraw << 64)); (U0F128::lay(), x.val(), cat(|| W::<F>::from_num(x))) }
+                    3 if c.wr.big => { let x = U1F127::from_bits(numraw | (numraw << 64) | (1u128 << 127)); (U1F127::lay(), x.val(), cat(|| W::<F>::from_num(x))) }
                     _ => { let x = U8F0::from_bits(numraw as u8); (U8F0::lay(), x.val(), cat(|| W::<F>::from_num(x))) }
                 };
                 if let Ok(v) = r { reg[d] = v; }
